@@ -630,6 +630,78 @@ def enc_def(sc, k, v, rng=None):
         body = enc_fields(sc, eff_enc(d, va), va.fields, v[2], rng)
     return enc_tag(d.tag, rng) + hd(4, 2, rng) + hd(0, va.idx, rng) + enc_tag(va.tag, rng) + body
 
+# ---------------------------------------------------------------- the re-framer of Model/DeriveReframe.v (theorem C09_roundtrip_reframed)
+# A mirror of DeriveReframe.reframe_with: one choice per head of the derive layer, drawn in the order the bytes are written
+# (body container before its items; key, tag, value per entry).  0 = minimal / definite, 1..4 = argument in 1/2/4/8 bytes if it
+# fits (else minimal), >= 5 = indefinite on a body container, minimal on any other head.  Leaves, gap / Option nulls and Vec
+# headers stay as the encoder writes them; the enum's [index, body] array stays definite (the generated decoder demands Some(2)).
+# The OCaml driver recomputes the bytes from the recorded choices with the extracted Coq function and both sides echo them.
+class Chooser:
+    def __init__(s, rng, mode="mix"): s.rng, s.mode, s.log = rng, mode, []
+    def head(s):
+        k = 4 if s.mode == "wide" else 0 if s.mode == "indef" else s.rng.choice((0, 0, 1, 2, 3, 4, 4, 6))
+        s.log.append(k); return k
+    def body(s):
+        k = 5 if s.mode in ("wide", "indef") else s.rng.choice((5, 5, 5, 7, 0, 1, 2, 3, 4))
+        s.log.append(k); return k
+    def text(s): return "c=" + (",".join(map(str, s.log)) if s.log else "-")
+
+RF_WIDTH = {1: 1, 2: 2, 3: 4, 4: 8}
+def rf_head(mt, n, k):
+    w = RF_WIDTH.get(k, 0)
+    fits = n < 24 if w == 0 else n < (1 << (8 * w))
+    return head(mt, n, w if fits else None)
+
+def rf_frame(mt, k, items):
+    if k >= 5: return bytes([mt * 32 + 31]) + b"".join(items) + b"\xff"
+    return rf_head(mt, len(items), k) + b"".join(items)
+
+def rf_tag(t, ch): return b"" if t is None else rf_head(6, t, ch.head())
+
+def rf_ft(sc, ft, v, ch):
+    if ft[0] in ("ty", "sp"): return enc_ft(sc, ft, v, None)
+    if ft[0] == "ref": return rf_def(sc, ft[1], v, ch)
+    if ft[0] == "opt": return b"\xf6" if v is None else rf_ft(sc, ft[1], v[1], ch)
+    items = [rf_ft(sc, ft[1], x, ch) for x in v]
+    return head(4, len(items)) + b"".join(items)
+
+def rf_fields(sc, enc, fields, vs, ch):
+    fv = sorted([(f, x) for f, x in zip(fields, vs) if not f.skip], key=lambda p: p[0].idx)
+    k = ch.body()
+    items = []
+    if enc == "a":
+        present = [f.idx for f, x in fv if not field_is_nil(f, x)]
+        n = max(present) + 1 if present else 0
+        by = {f.idx: (f, x) for f, x in fv}
+        for i in range(n):
+            if i in by:
+                t = rf_tag(by[i][0].tag, ch)
+                items.append(t + rf_ft(sc, by[i][0].ft, by[i][1], ch))
+            else: items.append(b"\xf6")
+        return rf_frame(4, k, items)
+    for f, x in fv:
+        if field_is_nil(f, x): continue
+        kb = rf_head(0, f.idx, ch.head())
+        t = rf_tag(f.tag, ch)
+        items.append(kb + t + rf_ft(sc, f.ft, x, ch))
+    return rf_frame(5, k, items)
+
+def rf_def(sc, k, v, ch):
+    d = sc.defs[k]
+    if d.kind == "S":
+        if d.transparent: return rf_ft(sc, d.fields[0].ft, v[0], ch)
+        t = rf_tag(d.tag, ch)
+        return t + rf_fields(sc, eff_enc(d), d.fields, v, ch)
+    va = find_variant(d, v[1])
+    t = rf_tag(d.tag, ch)
+    if d.index_only: return t + rf_head(0, va.idx, ch.head())
+    h2 = rf_head(4, 2, ch.head())
+    hi = rf_head(0, va.idx, ch.head())
+    vt = rf_tag(va.tag, ch)
+    if va.shape == "u": body = rf_frame(4 if eff_enc(d, va) == "a" else 5, ch.body(), [])
+    else: body = rf_fields(sc, eff_enc(d, va), va.fields, v[2], ch)
+    return t + h2 + hi + vt + body
+
 # ---------------------------------------------------------------- presence combinations
 def value_optional(f):
     """the value can be None / nil (the macro may or may not treat the field as optional: aliases under a codec)"""
@@ -1059,12 +1131,17 @@ def dmeta_cases(w, rng, tier):
 
 def drt_cases(w, rng, tier):
     out = []
+    n = 0
     for sc in list(w.fixed.values()) + w.base:
         for k in range(len(sc.defs)):
             for v in values_for(sc, k, rng, tier):
                 exp = show_def(sc, k, dflt_def(sc, k, v), True)
-                ref = [enc_def(sc, k, v, rng).hex() for _ in range(2)]
-                out.append("DRT %s %s %d %s %s %s" % (sc.sid, w.text[sc.sid], k, show_def(sc, k, v), exp, " ".join(ref)))
+                # first: a re-framing in the sense of Model/DeriveReframe.v, with its choice list (theorem C09_roundtrip_reframed);
+                # second: a freer one (also wide integer leaves, indefinite / wide Vec headers) — correspondence only
+                n += 1
+                ch = Chooser(rng, ("wide", "indef", "mix", "mix", "mix")[n % 5])
+                ref = [rf_def(sc, k, v, ch).hex(), enc_def(sc, k, v, rng).hex()]
+                out.append("DRT %s %s %d %s %s %s %s" % (sc.sid, w.text[sc.sid], k, show_def(sc, k, v), exp, " ".join(ref), ch.text()))
     return out
 
 def retag(sc, rng, sid):
@@ -1116,6 +1193,13 @@ def ddec_cases(w, rng, tier):
                 body = b"" if d.index_only else rng.choice([b"\x80", b"\xa0", b"\x01", b"\x82\x01\x02"])
                 b = enc_tag(d.tag, None) + (b"" if d.index_only else b"\x82") + head(0, n) + body
                 out.append("DDEC %s %s %d %s !variant:%d" % (sc.sid, w.text[sc.sid], k, hexs(b), n))
+                if not d.index_only:
+                    # class enum_pair_indefinite (Props/C09.v): the same item with the [index, body] array in indefinite form is
+                    # refused with a message error — the one container of the derive layer that is not free in `reframe`
+                    for v in vals[:3]:
+                        va = find_variant(d, v[1])
+                        inner = enc_def(sc, k, v, None)[len(enc_tag(d.tag, None)) + 1:]
+                        out.append("DDEC %s %s %d %s !message" % (sc.sid, w.text[sc.sid], k, hexs(enc_tag(d.tag, None) + b"\x9f" + inner + b"\xff")))
         rt = retag(sc, rng, sc.sid + "r")
         if rt:
             t, kdef, vidx = rt
